@@ -737,17 +737,16 @@ def send (pl : Plan) (args : Args) : Outcome :=
 
 /-! ## the request on the wire, attempt by attempt, when the client's chain contains RetryMiddleware
 
-middleware/retry.go:24 — `resp, err = next.RoundTrip(req)` inside the loop: every attempt hands the SAME
-`*http.Request` to the next transport. Verb, URL, headers and context are therefore the request's own on
-every attempt. `req.Body` is the reader `http.NewRequest` wrapped around the JSON (`bytes.NewReader`): the
-transport of the first attempt reads it to the end, so a later attempt finds nothing left to read, while
-`ContentLength` still announces the JSON's length (nothing calls `req.GetBody`). -/
+middleware/retry.go (since 371dec3) — the first attempt hands the request itself to the next transport;
+every later attempt hands it `req.Clone(req.Context())` with `Body = req.GetBody()`: the same verb, URL,
+headers and context, and a fresh reader over the same JSON bytes (the generated code builds the request
+with `bytes.NewReader`, so `GetBody` is set and cannot fail). Before 371dec3 the same `*http.Request` was
+re-sent with its body reader already at its end (former finding F_retryBody). -/
 
 /-- the body as the transport of one attempt reads it -/
 inductive WireBody where
   | absent               -- the request has no body
   | whole (b : String)   -- json.Marshal(b), complete
-  | drained (b : String) -- Content-Length of json.Marshal(b), but zero bytes to read
   deriving Repr, DecidableEq
 
 structure Attempt where
@@ -773,7 +772,7 @@ def attempt (r : Request) (cancelAfter : Option Nat) (j : Nat) : Attempt :=
   { verb := r.verb, path := r.path, query := r.query, headers := r.headers,
     body := (match r.body with
       | none => .absent
-      | some b => if j = 0 then .whole b else .drained b),
+      | some b => .whole b),     -- attempt 0: req.Body itself; later attempts: req.GetBody()
     ctx := r.ctx,
     ctxDone := r.ctx.isSome && cancelledBefore cancelAfter j }
 
